@@ -12,6 +12,22 @@ pub struct C12;
 const ANGLES: [(Option<f64>, i64); 7] = [(None, 0), (Some(0.0), 0), (Some(90.0), 1), (Some(180.0), 2), (Some(270.0), 3), (Some(-90.0), 3), (Some(360.0), 0)];
 const OFFSETS: [P; 9] = [(0, 0), (7, 0), (0, -7), (-3, 5), (1, 1), (-7, -7), (5, -2), (2, 7), (-6, 3)];
 
+/// vertex counts of the `point-counts` generator
+const POINT_COUNTS: [usize; 280] = {
+    let mut a = [0usize; 280];
+    let mut i = 0;
+    while i < 260 {
+        a[i] = i + 1;
+        i += 1;
+    }
+    let extra = [383, 384, 385, 511, 512, 513, 640, 767, 768, 1023, 1024, 1025, 2047, 2048, 2049, 4095, 4096, 4097, 8191, 8192];
+    let mut k = 0;
+    while k < 20 {
+        a[260 + k] = extra[k];
+        k += 1;
+    }
+    a
+};
 #[derive(Clone, Copy, Debug)]
 struct Letter {
     reflect: bool,
@@ -272,6 +288,8 @@ impl Prop for C12 {
         v.push(GenSpec::enumerated("words-depth4", 38416 * tier.pick(1, 9)));
         // beyond the stated depth bound, thorough only: all 14^5 words with one offset assignment
         v.push(GenSpec::enumerated("words-depth5", 537_824 * tier.pick(0, 1)));
+        // polygons and paths of every point count 1..=260 and around 512 .. 4096, placed two levels deep: every vertex must move
+        v.push(GenSpec::enumerated("point-counts", POINT_COUNTS.len() as u64));
         v.push(GenSpec::random("large-coordinates", tier.pick(20_000, 1_000_000)));
         v.push(GenSpec::random("general-angles", tier.pick(20_000, 1_000_000)));
         // the same placement arithmetic from several threads of one process at once (each layout is its own; nothing is shared by the caller)
@@ -289,6 +307,56 @@ impl Prop for C12 {
                 cx.nontrivial(cx.n * 8 + depth as u64);
                 self.check_word(cx, &word, &grid);
                 cx.sample(|| describe(&word));
+            }
+            "point-counts" => {
+                let n = POINT_COUNTS[cx.n as usize];
+                // a closed zig-zag ring (no two points equal) and an open staircase path
+                let ring: Vec<P> = (0..n).map(|i| { let a = i as i64; (1000 + 3 * a, if i % 2 == 0 { 11 + a } else { -7 - 2 * a }) }).collect();
+                let stairs: Vec<P> = (0..n.max(2)).map(|i| { let a = i as i64; (-50 + (a + 1) / 2 * 5, 40 + a / 2 * 5) }).collect();
+                for k in 0..4u64 {
+                    let word: Vec<Letter> = (0..2).map(|j| letter(((cx.n * 7 + k * 5 + j * 3 + 1) % 14) as usize, OFFSETS[((cx.n + k + 4 * j) % 9) as usize])).collect();
+                    let word: Vec<Letter> = word.iter().map(|l| Letter { loc: (l.loc.0 * 1657 + 3, l.loc.1 * 811 - 2), ..*l }).collect();
+                    let mut imap = IMap::identity();
+                    for l in &word {
+                        imap = IMap::compose(&imap, &IMap::instance(l.loc, l.reflect, l.quarter));
+                    }
+                    let mk = |s: Shape| Element { net: None, layer: LayerKey::default(), purpose: LayerPurpose::Drawing, inner: s };
+                    let mut cur = Layout { name: "leaf".into(), insts: vec![], elems: vec![mk(Shape::Polygon(Polygon { points: ring.iter().map(|p| pt(*p)).collect() })), mk(Shape::Path(Path { points: stairs.iter().map(|p| pt(*p)).collect(), width: 4 }))], annotations: vec![] };
+                    for (i, l) in word.iter().enumerate().rev() {
+                        let cell: Ptr<Cell> = Ptr::new(Cell::from(cur));
+                        cur = Layout { name: format!("level{}", i), insts: vec![Instance { inst_name: format!("i{}", i), cell, loc: pt(l.loc), reflect_vert: l.reflect, angle: l.angle }], elems: vec![], annotations: vec![] };
+                    }
+                    cx.eval();
+                    match guard(|| cur.flatten()) {
+                        Err(c) => cx.violation(&format!("point-counts|flatten-panic|{}", c.norm_msg()), json!({"points": n, "word": describe(&word), "panic": c.msg})),
+                        Ok(Err(e)) => cx.violation("point-counts|flatten-error", json!({"points": n, "word": describe(&word), "error": format!("{:?}", e)})),
+                        Ok(Ok(elems)) => {
+                            let mut seen = 0;
+                            let mut wrong = false;
+                            for e in &elems {
+                                let (got, src): (Vec<P>, &Vec<P>) = match &e.inner {
+                                    Shape::Polygon(p) => (p.points.iter().map(tp).collect(), &ring),
+                                    Shape::Path(p) => (p.points.iter().map(tp).collect(), &stairs),
+                                    Shape::Rect(_) => continue,
+                                };
+                                seen += 1;
+                                let want: Vec<P> = src.iter().map(|q| imap.apply(*q)).collect();
+                                if got != want {
+                                    let at = got.iter().zip(want.iter()).position(|(a, b)| a != b).unwrap_or(got.len().min(want.len()));
+                                    cx.violation("point-counts|flatten-shape", json!({"points": src.len(), "first_wrong_vertex": at, "got": got.get(at), "exact": want.get(at), "word": describe(&word)}));
+                                    wrong = true;
+                                    break;
+                                }
+                                cx.count("point_count_shapes_agree");
+                            }
+                            if seen != 2 && !wrong {
+                                cx.violation("point-counts|flatten-count", json!({"points": n, "elements": elems.len()}));
+                            }
+                        }
+                    }
+                }
+                cx.nontrivial(0xC0_0000 | n as u64);
+                cx.sample(|| json!({"points": n}));
             }
             "large-coordinates" => {
                 let depth = 1 + cx.rng.usize(4);
